@@ -4,6 +4,8 @@ import re
 from base64 import a85decode
 from binascii import unhexlify
 
+from pdfminer.pdfexceptions import PDFValueError
+
 start_re = re.compile(rb"^\s*<?\s*~\s*")
 end_re = re.compile(rb"\s*~\s*>?\s*$")
 
@@ -24,7 +26,10 @@ def ascii85decode(data: bytes) -> bytes:
     """
     data = start_re.sub(b"", data)
     data = end_re.sub(b"", data)
-    return a85decode(data)
+    try:
+        return a85decode(data)
+    except ValueError as e:
+        raise PDFValueError("Invalid ASCII85 data: %s" % e)
 
 
 bws_re = re.compile(rb"\s")
@@ -45,4 +50,7 @@ def asciihexdecode(data: bytes) -> bytes:
         data = data[:idx]
         if idx % 2 == 1:
             data += b"0"
-    return unhexlify(data)
+    try:
+        return unhexlify(data)
+    except ValueError as e:
+        raise PDFValueError("Invalid ASCIIHex data: %s" % e)
